@@ -48,7 +48,9 @@ def engine_part(ctx):
         hist = rng.choice(ords)
         if rng.random() < 0.3:
             hist = hist + [rng.choice(goals)]
-        caching = rng.random() < 0.75
+        if shape == "stale_member":      # the head first, then the dependent nodes
+            hist = [0] + [x for x in range(2, len(G))] + [1]
+        caching = rng.random() < 0.75 or shape == "stale_member"
         cases.append((G, 40, caching, [], [], hist))
         meta.append(shape)
     # fresh runs of every goal that occurs last in some history, cache on and off
@@ -135,7 +137,7 @@ SOLVERS = [("slg", H.SLG), ("rec", H.REC), ("rec-ms5-cache", H.rec_with(100, Tru
 
 def solver_part(ctx):
     rng = ctx.rng
-    progs = H.programs(rng, ctx.n(8, 150))
+    progs = H.programs(rng, ctx.n(8, 150), seeded=True)
     cases, index = [], []
     for pi, (p, text, goals, gts) in enumerate(progs):
         ords = E.orders(rng, list(range(len(gts))), quick=ctx.quick, limit=ctx.n(2, 10))
